@@ -13,7 +13,9 @@ def _pick(name, alts):
     return alts[int(fresh_int(name, 0, len(alts) - 1))]
 
 
-def skeleton(n, atoms=("C",), tree_bonds=("",), ring_bonds=("",), max_deg=4, tag="k", ring_bond_sides=("open",)):
+def skeleton(n, atoms=("C",), tree_bonds=("",), ring_bonds=("",), max_deg=4, tag="k", ring_bond_sides=("open",), special=None):
+    """special: {degree: [spellings]} - exactly one atom (chosen by the solver among the atoms whose degree is listed) is
+    written with one of the spellings listed for its degree (e.g. a chiral centre)"""
     parent, stack = [None], [0]
     deg = [0] * n
     for i in range(1, n):
@@ -40,6 +42,12 @@ def skeleton(n, atoms=("C",), tree_bonds=("",), ring_bonds=("",), max_deg=4, tag
         children[parent[i]].append(i)
     lab = {e: k + 1 for k, e in enumerate(sorted(rings, key=lambda e: (e[1], e[0])))}
     text = [_pick("%sa%d" % (tag, i), atoms) for i in range(n)]
+    if special:
+        where = [i for i in range(n) if deg[i] in special]
+        if not where:
+            raise engine.Infeasible()
+        w = _pick("%sw" % tag, where)
+        text[w] = _pick("%sx" % tag, special[deg[w]])
     tb = [None] + [_pick("%sb%d" % (tag, i), tree_bonds) for i in range(1, n)]
     rb = {e: _pick("%sq_%d_%d" % ((tag,) + e), ring_bonds) for e in rings}
     # where the ring bond's symbol is written: on the opening label, the closing label, or both
